@@ -63,7 +63,8 @@ def register_main(R):
               ensures=["not allocated(result)", "hist(result) == hnil()", "th_args(result) == args"])
     R.shape("MakeTests", __call__=dict(signature="suite", event=True, returns="list[SubSuite]", exsures=["True"],
                                        # the sub-suites are distinct objects (they are used as dictionary keys)
-                                       ensures=["not allocated(ret)", "forall(lambda i, j: implies(0 <= i and i < j and j < len(listof(ret)), "
+                                       ensures=["not allocated(ret)", "all(is_ref(t) for t in listof(ret))",
+                                                "forall(lambda i, j: implies(0 <= i and i < j and j < len(listof(ret)), "
                                                 "at(listof(ret), i) is not at(listof(ret), j)))"]))
     R.fields_of("ConcurrentTestSuite", make_tests="MakeTests")
     STARTED = "snoc(hnil(), call('start', [], {}))"
@@ -94,14 +95,15 @@ def register_main(R):
     # val_ok(k, v): the entry (thread, result) stored under key k -- the thread was created by this call for exactly (k, result, queue),
     # has been started and not joined; the result is this call's ThreadsafeForwardingResult around the caller's result
     R.define("val_ok", ["k", "v", "q", "sem", "res"],
-             "not allocated(at(elems(v), 0)) and is_shape_(at(elems(v), 0), 'AThread') and th_args(at(elems(v), 0)) == (k, at(elems(v), 1), q) and "
+             "k == id(at(elems(v), 2)) and is_ref(at(elems(v), 2)) and "
+             "not allocated(at(elems(v), 0)) and is_shape_(at(elems(v), 0), 'AThread') and th_args(at(elems(v), 0)) == (at(elems(v), 2), at(elems(v), 1), q) and "
              "hsel(HIST(), at(elems(v), 0)) == " + STARTED + " and not allocated(at(elems(v), 1)) and pr_ok(v, sem, res)")
     VALS = "forall(lambda vk: implies(vk in %s, val_ok(vk, kwget(%s, vk), queue, semaphore, result)))" % (D, D)
     COMMON = ["not allocated(threads)", "not allocated(queue)", "not allocated(semaphore)", "sem_free(semaphore)", "frame_rest()",
               "result is not semaphore", VALS]
-    TH1 = "at(elems(kwget(%s, at(_seq0, j))), 0)" % D1          # the thread made for test j (as recorded when the wait loop started)
+    TH1 = "at(elems(kwget(%s, id(at(_seq0, j)))), 0)" % D1          # the thread made for test j (as recorded when the wait loop started)
     R.contract(TS + "ConcurrentTestSuite.run", props=["C13"], params={"result": "LockedResult"},
-               local_tags={"threads": "dict[SubSuite=>(AThread,ThreadsafeForwardingResult)]"},
+               local_tags={"threads": "dict[int=>(AThread,ThreadsafeForwardingResult,SubSuite)]"},
                requires=["fieldof(self, '_wrap_result') is absent()"],       # the default _wrap_result (identity); see DESIGN.md
                frame_hist=True, modifies=["$hist", "$dict"], returns="none",
                # whatever aborts run(): every worker still in the table has been told to stop before the exception propagates
@@ -113,11 +115,11 @@ def register_main(R):
                    # every sub-suite got its own thread (created for that sub-suite), started once and joined once before run() returned
                    "all(not allocated(%s) and is_shape_(%s, 'AThread') and at(elems(th_args(%s)), 0) is at(_seq0, j) and hsel(HIST(), %s) == %s "
                    "for j in range(len(_seq0)))" % (TH1, TH1, TH1, TH1, JOINED)],
-               loops={0: dict(invariant=COMMON + ["all((at(_seq, j) in %s) for j in range(_i))" % D]),
+               loops={0: dict(invariant=COMMON + ["all((id(at(_seq, j)) in %s) for j in range(_i))" % D]),
                       1: dict(invariant=COMMON + [
                           "all(not allocated(%s) and is_shape_(%s, 'AThread') and at(elems(th_args(%s)), 0) is at(_seq0, j) and "
-                          "(((at(_seq0, j) in %s) and kwget(%s, at(_seq0, j)) == kwget(%s, at(_seq0, j))) or "
-                          " (not (at(_seq0, j) in %s) and hsel(HIST(), %s) == %s)) for j in range(len(_seq0)))"
+                          "(((id(at(_seq0, j)) in %s) and kwget(%s, id(at(_seq0, j))) == kwget(%s, id(at(_seq0, j)))) or "
+                          " (not (id(at(_seq0, j)) in %s) and hsel(HIST(), %s) == %s)) for j in range(len(_seq0)))"
                           % (TH1, TH1, TH1, D, D, D1, D, TH1, JOINED)]),
                       # the handler: every worker that has not been joined is told to stop
                       2: dict(invariant=["all(told_to_stop(at(_seq, j)) for j in range(_i))", "sem_free(semaphore)", "result is not semaphore",
